@@ -103,7 +103,7 @@ func runC19(c *Ctx) {
 
 func paramObj(fi *FuncInfo, i int) types.Object {
 	sig := fi.Obj.Type().(*types.Signature)
-	if i < sig.Params().Len() {
+	if i >= 0 && i < sig.Params().Len() {
 		return sig.Params().At(i)
 	}
 	return nil
